@@ -333,7 +333,10 @@ pub async fn run(ctx: &Ctx) {
                                 let _ = from;
                             }
                         }
-                        if to_from.is_some() {
+                        // The forged chunk models "the peer aborts / shuts down an ESTABLISHED association". While
+                        // the association is still being set up the genuine peer (which did not abort) simply
+                        // completes the handshake afterwards, so nothing was lost and nothing is demanded.
+                        if to_from.is_some() && counts[side].open.load(Ordering::SeqCst) >= 1 {
                             lower_loss[side] = true;
                         }
                     }
@@ -427,6 +430,11 @@ pub async fn run(ctx: &Ctx) {
     tokio::time::sleep(Duration::from_millis(bound_ms)).await;
     for v in prompt_violation.lock().unwrap().iter() {
         ctx.violate("C17.prompt", v.clone());
+    }
+    if ctx.sh.lock().unwrap().keep_log {
+        let mut live: Vec<String> = vh::live_tasks().into_iter().filter(|l| l.starts_with("/repo/")).map(|l| l.replace("/repo/src/", "")).collect();
+        live.sort();
+        ctx.ev("live rustrtc tasks at judgement", &format!("{live:?}"));
     }
     let final_state = [*state_rx[0].borrow(), *state_rx[1].borrow()];
     let final_reason = [reason_rx[0].borrow().clone(), reason_rx[1].borrow().clone()];
